@@ -364,13 +364,28 @@ Definition free_spec_code (s s' : cstate) (v n : nat) (d : direction) : Z :=
     end
   end.
 
+(* ---- the premises of the free-variable theorem (C06_input_free_equiv) as one boolean -------------------------------- *)
+Definition odes_of (l : list ceq) : list orec :=
+  flat_map (fun q => match q_lhs q with CLD y _ => [(y, q_rhs q, 0%nat)] | CLV _ => [] end) l.
+
+Definition free_ok (s : cstate) (v : nat) : bool :=
+  let N := length (cvars s) in
+  let rem := odes_of (ceqs s) in
+  lhs_nodupb (map q_lhs (ceqs s)) &&
+  forallb (fun q => match q_lhs q with CLD y t => Nat.eqb t v && Nat.ltb y N | CLV x => Nat.ltb x N end) (ceqs s) &&
+  Nat.ltb v N &&
+  forallb (fun q => fresh_var1 N q && forallb (fun w => fresh_var1 w q) (seq (S N) (length rem))
+                    && forallb (fun y => fresh_atom1 y N q) (ys_of rem)) (ceqs s).
+
 (* ---- the premises of one step of theorem C06_sequence_equiv, evaluated by the interpreter before every conversion --- *)
 Definition step_ok (s : cstate) (v : nat) (d : direction) : bool :=
   premises_hold s && Nat.ltb v (length (cvars s)) &&
   match d with
   | DOutput => true
   | DInput =>
-      negb (match free_var s with Some t => Nat.eqb t v | None => false end) &&
+      if (match free_var s with Some t => Nat.eqb t v | None => false end)
+      then negb (is_state s v) && (match var_def s v with None => true | Some _ => false end) && free_ok s v
+      else
       match ode_def s v with
       | None => true
       | Some ode => match q_lhs ode with
